@@ -162,6 +162,10 @@ class TaskLoader:
                 )
             )
             raise syntax_err from ex
+        except ConductorError:
+            # Not an error of the included file (e.g., the user aborted
+            # Conductor while the file was being evaluated).
+            raise
         except Exception as ex:
             run_err = TaskParseError(error_details=str(ex))
             run_err.add_file_context(
